@@ -297,7 +297,7 @@ func (t *Tr) indexAddr(in *ssa.IndexAddr) {
 	case *types.Slice:
 		x := t.val(in.X)
 		t.safety("index", fmt.Sprintf("(and (<= 0 %s) (< %s (s-len %s)))", i.S, i.S, x.S), "slice index in range", in.Pos())
-		a := &Addr{Kind: aElem, Heap: elemHeapName(u.Elem()), Obj: fmt.Sprintf("(s-base %s)", x.S), Idx: t.define("idx", SInt_, fmt.Sprintf("(+ (s-off %s) %s)", x.S, i.S)), Ty: u.Elem()}
+		a := &Addr{Kind: aElem, Heap: elemHeapName(u.Elem()), Obj: fmt.Sprintf("(s-base %s)", x.S), Idx: linNorm(fmt.Sprintf("(+ (s-off %s) %s)", x.S, i.S)), Ty: u.Elem()}
 		t.addrs[in] = a
 		t.vals[in] = Term{t.addrValue(a), SInt_}
 	case *types.Pointer:
@@ -539,6 +539,33 @@ func (t *Tr) ret(in *ssa.Return) {
 			env.vars[n] = Val{T: v, Ty: ty}
 		}
 	}
+	// ghost assignments performed at return
+	for _, gs := range t.c.GhostSets {
+		id, _ := gs.Target.Fun.(*SIdent)
+		var g *GhostDecl
+		if id != nil {
+			g = t.w.CS.Ghosts[id.Name]
+		}
+		if g == nil || !g.IsVar {
+			efail("%s:%d: ghostset target is not a ghost var", gs.File, gs.Line)
+		}
+		gsort, ptys, rty := t.ghostSort(g)
+		var as []string
+		for i, a := range gs.Target.Args {
+			v, err := env.evalArg(a, ptys[i])
+			if err != nil {
+				efail("%s:%d: ghostset: %v", gs.File, gs.Line, err)
+			}
+			as = append(as, v.T.S)
+		}
+		rv, err := env.evalArg(gs.Val, rty)
+		if err != nil {
+			efail("%s:%d: ghostset: %v", gs.File, gs.Line, err)
+		}
+		h := t.heapGet(t.cur, "G_"+g.Name, gsort)
+		t.heapSet(t.cur, "G_"+g.Name, gsort, nestedStore(h, as, rv.T.S))
+		env.cur = t.cur
+	}
 	for i, en := range t.c.Ensures {
 		s, err := env.evalClause(en.E)
 		if err != nil {
@@ -573,7 +600,7 @@ func (t *Tr) slice(in *ssa.Slice) {
 			mx = capx
 			t.safety("slice", fmt.Sprintf("(and (<= 0 %s) (<= %s %s) (<= %s %s))", lo, lo, hi, hi, capx), "slice bounds in range", in.Pos())
 		}
-		t.setVal(in, fmt.Sprintf("(mk-slice (s-base %[1]s) (+ (s-off %[1]s) %[2]s) (- %[3]s %[2]s) (- %[4]s %[2]s))", x.S, lo, hi, mx))
+		t.setVal(in, fmt.Sprintf("(mk-slice (s-base %s) %s %s %s)", x.S, linNorm(fmt.Sprintf("(+ (s-off %s) %s)", x.S, lo)), linNorm(fmt.Sprintf("(- %s %s)", hi, lo)), linNorm(fmt.Sprintf("(- %s %s)", mx, lo))))
 	case *types.Pointer: // *[N]T
 		at := u.Elem().Underlying().(*types.Array)
 		t.nilCheck(in.X, in.Pos())
@@ -590,7 +617,7 @@ func (t *Tr) slice(in *ssa.Slice) {
 			mx = n
 		}
 		t.safety("slice", fmt.Sprintf("(and (<= 0 %s) (<= %s %s) (<= %s %s) (<= %s %s))", lo, lo, hi, hi, mx, mx, n), "slice bounds in range", in.Pos())
-		t.setVal(in, fmt.Sprintf("(mk-slice %s %s (- %s %s) (- %s %s))", base.Obj, lo, hi, lo, mx, lo))
+		t.setVal(in, fmt.Sprintf("(mk-slice %s %s %s %s)", base.Obj, lo, linNorm(fmt.Sprintf("(- %s %s)", hi, lo)), linNorm(fmt.Sprintf("(- %s %s)", mx, lo))))
 	case *types.Basic: // string
 		x := t.val(in.X)
 		t.vc.needStr()
